@@ -17,7 +17,7 @@
    property; no known-finding class is left for C14.  `new` below = the new messages on the wire
    (not PossDupFlag=Y, not SequenceReset), `retx_ok` = a legitimate retransmission frame. *)
 From Coq Require Import ZArith List Bool.
-From AF Require Import Fix.Sched Lemmas.SchedL.
+From AF Require Import Fix.Sched Lemmas.SchedL Lemmas.SchedGapL.
 Import ListNotations.
 Open Scope Z_scope.
 
@@ -150,3 +150,26 @@ Example C14_lifo_counter_example :
   /\ map f_seq (wire_of (c_w c)) = [1; 2] /\ map fst (rows (c_w c)) = [1; 2] /\ sout (c_w c) = 2 /\ nout (c_w c) = 3.
 Proof. exact lifo_counter_example. Qed.
 Print Assumptions C14_lifo_counter_example.
+
+(* The reply to a ResendRequest is fixed when the request arrives (resend_code reads the journal and next_num_out once):
+   every SequenceReset-GapFill it contains has NewSeqNo <= that counter - for any BeginSeqNo / EndSeqNo / should_replay
+   answers / journal.  Together with C14_senders_safe (whatever other tasks send while the reader is suspended in
+   should_replay or drain is numbered FROM that counter on) no gap fill can tell the peer to skip a message that was sent
+   while the request was being serviced.  (Moving the counter snapshot behind the replay loop - seeded changes C06-a /
+   C07-a - makes the tail gap fill cover such a message: the peer loses it for good.) *)
+Theorem C14_gapfill_stops_at_arrival_counter : forall (b e : Z) (d : list Z) (w : world),
+  ent_ok w -> Forall (gf_le (nout w)) (resend_code b e d w).
+Proof. exact resend_gapfill_bound. Qed.
+Print Assumptions C14_gapfill_stops_at_arrival_counter.
+
+(* journal 1, 2 (application), 3 (Heartbeat); ResendRequest(1, 0) serviced while another task sends: its message gets
+   number 4 in the middle of the reply, the tail gap fill is 3 -> 4, message 4 is not skipped *)
+Example C14_gapfill_window_example :
+  let c := run_sched gp_cfg gp_sched in
+  init_ok (c_w gp_cfg) /\ fifo_sched gp_cfg gp_sched = true /\ valid_sched gp_cfg gp_sched = true /\ all_done c = true
+  /\ map (fun f => (f_seq f, f_ty f, f_pd f, f_id f, f_gf f)) (wire_of (c_w c))
+     = [(1, 68, true, 1, false); (4, 68, false, 9, false); (2, 68, true, 2, false); (3, T_SEQRESET, false, 4, true)]
+  /\ nout (c_w c) = 5 /\ map fst (rows (c_w c)) = [1; 2; 3; 4]
+  /\ Forall (gf_le (nout (c_w gp_cfg))) (resend_code 1 0 [] (c_w gp_cfg)).
+Proof. exact gapfill_window_example. Qed.
+Print Assumptions C14_gapfill_window_example.
